@@ -48,6 +48,10 @@ def plan(tier, seed):
             cases.append({'nside': nside, 'kind': kind, 'lay': lay, 'samp': samp})
     # psi many turns away from [0, 2 pi) (a continuously rotating instrument); 64-bit modes only: float32 cannot hold such
     # angles to better than 1e-3 rad, so nothing could be concluded there
+    # timelines longer than 2**16 (detector, direction, sample) triples, and position angles that are all multiples of pi/2
+    grid_cases = [c for c in cases if c['samp'] == 'grid']
+    cases += [dict(c, samp='long') for c in grid_cases if c['lay'] in ('two', 'two_dirs', 'bore')][:: (2 if tier == 'thorough' else 5)]
+    cases += [dict(c, samp='quarter') for c in grid_cases][:: (1 if tier == 'thorough' else 3)]
     big = [dict(c, samp='bigpsi') for c in cases if c['samp'] == 'grid'][:: (1 if tier == 'thorough' else 3)]
     c64 = (cases if tier == 'thorough' else cases[::2]) + big
     return [
@@ -127,6 +131,11 @@ def run(phase, cases, ctx):
             pts = grid
         elif case['samp'] == 'perm':
             pts = [grid[(i * 37) % len(grid)] for i in range(0, len(grid), 5)]
+        elif case['samp'] == 'long':
+            pts = [grid[(i * 37) % len(grid)] for i in range(0, len(grid), 3)]
+        elif case['samp'] == 'quarter':
+            q = [math.pi / 2, math.pi, 0.0, 3 * math.pi / 2, -math.pi / 2, 5 * math.pi / 2]
+            pts = [(t, f, q[i % 6]) for i, (t, f, p) in enumerate(grid[(i * 37) % len(grid)] for i in range(0, len(grid), 5))]
         elif case['samp'] == 'bigpsi':
             turns = [1500, -1499, 40001, -7, 3]
             pts = [(t, f, p + 2 * math.pi * turns[(i * 3 + 1) % 5]) for i, (t, f, p) in enumerate(grid[(i * 37) % len(grid)] for i in range(0, len(grid), 5))]
@@ -148,6 +157,11 @@ def run(phase, cases, ctx):
                 continue
         if len(th) == 0:
             continue
+        if case['samp'] == 'long':   # the safe samples repeated until the timeline holds just over 2**16 triples (not a multiple of it)
+            nlong = 2 ** 16 // (pix.shape[0] * pix.shape[1]) + 7
+            reps = nlong // len(th) + 1
+            th, ph, ps = (np.tile(v, reps)[:nlong] for v in (th, ph, ps))
+            pix = np.tile(pix, (1, 1, reps))[:, :, :nlong]
         ndet, ndir, ns = pix.shape
         npix = 12 * nside ** 2
         try:
@@ -228,7 +242,7 @@ def run(phase, cases, ctx):
                 if got2.shape != tod_shape or not P.close(got2, want, tol):
                     violations.append({'kind': 'unreduced-acquisition-values', 'case': case, 'detail': f'max diff {P.maxdiff(got2, want) if got2.shape == want.shape else "n/a"}'})
             # full probe at nside 1, hit counts at nside <= 2
-            if nside <= 2 and case['samp'] != 'perm':
+            if nside <= 2 and case['samp'] not in ('perm', 'long'):
                 counts = np.bincount(pixr.ravel(), minlength=npix).astype(float)
                 want_diag = np.diag(np.tile(counts, len(kind)))
                 ptp = proj.T @ proj
@@ -246,7 +260,7 @@ def run(phase, cases, ctx):
             # remembered from the earlier objects (three rounds so that CPython re-uses the freed addresses)
             import gc
 
-            for rnd in range(3):
+            for rnd in range(3 if case['samp'] != 'long' else 0):
                 proj = samplings = H = out = None
                 gc.collect()
                 k = (rnd + 1) * max(1, ns // 4)
